@@ -11,7 +11,9 @@
 (*   "absent" (no such module), "ok" (returns a JSON object), "nondict"    *)
 (*   (returns other JSON), "none" (returns None), "raise" (raises),        *)
 (*   "raise_empty" (raises an exception whose message is empty),          *)
-(*   "importerror" (raises ImportError from inside the call).              *)
+(*   "importerror" (raises ImportError from inside the call),              *)
+(*   "importfails" (the module exists but raises something other than      *)
+(*   ImportError while being loaded - the parser function is never run).   *)
 (***************************************************************************)
 EXTENDS Integers, Sequences, SequencesExt, HexDump
 
@@ -28,7 +30,7 @@ Route(s, plugins, beh) ==
     ELSE IF ~plugins THEN "dump"
     ELSE CASE beh = "absent" -> "dump"
            [] beh \in {"ok", "nondict"} -> "plugin"
-           [] beh \in {"none", "raise", "raise_empty", "importerror"} -> "dump+error"
+           [] beh \in {"none", "raise", "raise_empty", "importerror", "importfails"} -> "dump+error"
 
 \* NeverDropped: every route ends in exactly one class, and every class other than a
 \* rendering carries the payload
